@@ -58,6 +58,7 @@ void ExecImpl::op_call(const Op& op) {
   const int args[2] = {op.a[2], op.a[3]};
   const FnDesc& fd = fn_desc(fn);
   if (depth > 1) ++st.p_nested_call;
+  if (M.mocks[static_cast<size_t>(mock)].moved_to) ++st.p_moved_mock_call;
   nontriv("C01"); nontriv("C16");
 
   // ---------- model: who is the designated candidate ----------
@@ -333,9 +334,9 @@ void ExecImpl::op_call(const Op& op) {
         return;
       }
       bool lr = c.kind == 'S' ? d.se_lr[c.k] : (d.rk == RK_LRVAL || d.rk == RK_LRSTR || d.rk == RK_REF_PARAM || d.rk == RK_REF_CELL);
-      long wantsnap = lr ? e.snap : e.snap0;
+      long wantsnap = lr ? c.msnap : e.snap0;
       if (c.val != wantsnap) {
-        fail("C09", "capture_time", std::string(lr ? "LR_ " : "plain ") + "clause " + c.kind + std::to_string(c.k) + " of " + describe_exp(cand) + " saw local = " + std::to_string(c.val) + ", expected " + std::to_string(wantsnap) + " (value at creation " + std::to_string(e.snap0) + ", at call " + std::to_string(e.snap) + ")");
+        fail("C09", "capture_time", std::string(lr ? "LR_ " : "plain ") + "clause " + c.kind + std::to_string(c.k) + " of " + describe_exp(cand) + " saw local = " + std::to_string(c.val) + ", expected " + std::to_string(wantsnap) + " (value at creation " + std::to_string(e.snap0) + ", when the clause ran " + std::to_string(c.msnap) + ")");
         return;
       }
       if (c.kind == 'S' || (d.rk != RK_THROW_STD && d.rk != RK_THROW_INT)) {
@@ -358,7 +359,9 @@ void ExecImpl::op_call(const Op& op) {
   // outcome
   {
     int wo = OC_NONE; long wv = 0; std::string ws; const void* wa = nullptr;
-    int code_plain = cand * 8 + (e.snap0 & 7), code_lr = cand * 8 + (e.snap & 7);
+    long rsnap = e.snap;
+    for (auto& c : o.clauses) if (c.kind == 'R' && c.inst == cand) rsnap = c.msnap;
+    int code_plain = cand * 8 + (e.snap0 & 7), code_lr = cand * 8 + static_cast<int>(rsnap & 7);
     if (expect_fault) wo = OC_THREW_FAULT;
     else switch (d.rk) {
       case RK_NONE: wo = OC_RET_VOID; break;
